@@ -570,10 +570,10 @@ def main(argv=None):
         print("  crash:", c["function"], c["reason"][1][-800:])
     for g in guard_fail:
         print("  guard:", g)
-    if crashes or disagreements:
-        return 3
     if violations:
         return 1
+    if crashes or disagreements:
+        return 3
     if guard_fail:
         return 3
     if undecided:
